@@ -52,6 +52,16 @@ DESC = {
  'C19-4': 'last-glyph cache in `Write` not invalidated by `Scroll`',
  'C20-3': '`bufio.Scanner` pre-scan skips files with a line >= 65536 bytes before the first annotation',
  'C20-4': 'files excluded by `go/build` constraints (`_arm64.go`, `// +build`) are left out',
+ 'C01-5': '(round 3, dependency) `multiboot.MemoryEntryType` narrowed to uint8: a region of type 0x101 / 0xF0000001 reads as available',
+ 'C01-6': '(round 3) per-pool bitmap stride in bytes but slice length in blocks: pools alias when an earlier pool has pages % 64 in 1..56 and a later one is drained',
+ 'C04-5': '(round 3, dependency) `pageTableEntry.Frame()` through `mm.FrameFromAddress` keeps bits 52-63 (Translate of an NX page)',
+ 'C04-6': '(round 3) inactive `PageDirectoryTable.Map` returns early on failure without restoring slot 511',
+ 'C06-5': '(round 3, dependency) the same early return in `pdt.go`: the next CoW fault in the active space walks the inactive tables',
+ 'C06-6': '(round 3) `Map` no longer clears the leaf before SetFrame/SetFlags: remapping the zero frame CoW over a page that was RW leaves RW set',
+ 'C16-5': '(round 3, dependency) `SetOutputSink` drains through a 64-byte scratch buffer and stops at the first short read (early log that wrapped the ring)',
+ 'C16-6': '(round 3) `InDetectOrder` never compares the last entry, DetectHardware sorts only when it says unsorted (only the last-registered driver out of place)',
+ 'C19-5': '(round 3, dependency) constructor computes bytesPerPixel as `bpp >> 3` (15 bpp: 1 instead of 2)',
+ 'C19-6': '(round 3, dependency) `SetFont` rounds widthInChars up (width not a multiple of the glyph width: phantom last column)',
 }
 def short(vs):
     out = []
